@@ -48,6 +48,23 @@ func main() {
 		code = cmdReplay(os.Args[2:])
 	case "expect":
 		code = cmdExpect(os.Args[2:])
+	case "loops":
+		prog, err := LoadProgram([]string{os.Args[2]})
+		if err != nil {
+			fmt.Fprintln(os.Stderr, err)
+			os.Exit(2)
+		}
+		fu := prog.Lookup(os.Args[2], os.Args[3])
+		if fu == nil {
+			fmt.Fprintln(os.Stderr, "no such function")
+			os.Exit(2)
+		}
+		for i, l := range loopsOf(fu.Body) {
+			ps := prog.Fset.Position(l.Pos())
+			data, _ := os.ReadFile(ps.Filename)
+			line := strings.Split(string(data), "\n")[ps.Line-1]
+			fmt.Printf("%s#%d  %s:%d  %s\n", fu.Name, i+1, filepath.Base(ps.Filename), ps.Line, strings.TrimSpace(line))
+		}
 	case "selftest":
 		code = cmdSelftest(os.Args[2:])
 	default:
@@ -142,6 +159,27 @@ func solveWithSplit(ob *Obligation, timeoutS int, all bool) SolveResult {
 	if first > 6 {
 		first = 6
 	}
+	// cheap attempts on a bounded-relevance subset of the hypotheses (only an unsat answer counts)
+	var spent float64
+	for _, at := range []struct {
+		radius int
+		uf     bool
+		ground bool
+	}{{1, true, false}, {2, true, false}, {2, true, true}, {2, false, true}, {4, true, false}, {4, false, true}, {4, false, false}} {
+		rr := Solve(ob.ScriptRadiusOpt(at.radius, at.uf, at.ground), 3, false)
+		spent += rr.Seconds
+		if rr.Status == "unsat" {
+			rr.Solver = fmt.Sprintf("%s/r%d", rr.Solver, at.radius)
+			if at.uf {
+				rr.Solver += "u"
+			}
+			if at.ground {
+				rr.Solver += "g"
+			}
+			rr.Seconds = spent
+			return rr
+		}
+	}
 	r := Solve(ob.Script(nil), first, all)
 	if r.Status == "unsat" || r.Status == "sat" || r.Status == "disagree" {
 		return r
@@ -193,6 +231,9 @@ func cmdUnit(args []string) int {
 	dump := fs.String("dump", "", "write the SMT script of the obligation with this name (substring) to stdout")
 	timeout := fs.Int("t", 10, "timeout per query (s)")
 	propFlag := fs.String("p", "", "only the clauses serving this property")
+	groundFlag := fs.Bool("ground", false, "with -dump -radius: drop quantified hypotheses (instances only)")
+	ufFlag := fs.Bool("uf", false, "with -dump -radius: products of non-literals as uninterpreted functions")
+	radiusFlag := fs.Int("radius", 0, "with -dump: bounded-relevance hypothesis set of this radius")
 	modelFlag := fs.Bool("model", false, "for sat obligations, write the full z3 model to /tmp/hvc-model-<name>.txt")
 	if len(args) < 2 {
 		usage()
@@ -218,6 +259,10 @@ func cmdUnit(args []string) int {
 		for _, ob := range res.Obligations {
 			if strings.Contains(ob.Name, *dump) {
 				fmt.Println("; ", ob.Name)
+				if *radiusFlag > 0 {
+					fmt.Println(ob.ScriptRadiusOpt(*radiusFlag, *ufFlag, *groundFlag))
+					return 0
+				}
 				fmt.Println(ob.Script(nil))
 				return 0
 			}
@@ -367,7 +412,13 @@ func cmdCheck(args []string) int {
 	var units []*UnitContract
 	dirs := map[string]bool{}
 	for _, u := range cs.Units {
-		if u.Tags[prop] {
+		serves := u.Tags[prop]
+		for t := range u.Tags {
+			if strings.HasPrefix(t, prop+".") {
+				serves = true
+			}
+		}
+		if serves {
 			units = append(units, u)
 			dirs[u.PkgDir] = true
 		}
@@ -403,48 +454,77 @@ func cmdCheck(args []string) int {
 	trusted := map[string]bool{}
 	abstractedAll := map[string]bool{}
 	results := make([]*UnitResult, len(units))
-	var wg sync.WaitGroup
 	var mu sync.Mutex
 	// units are independent but share the (read-only) program; Exec instances do not share mutable state
 	// except the package-level caches guarded here by running generation sequentially.
-	activeProp = prop
-	for i, u := range units {
-		_ = mu
-		results[i] = VerifyUnit(prog, cs, u)
+	// passes: the property itself plus its clause groups (tags "C02.a", "C02.b", ...): a group is verified in a
+	// separate pass that sees only the untagged clauses and the group's own, which keeps each query small.
+	passes := []string{prop}
+	{
+		seen := map[string]bool{}
+		for _, u := range units {
+			for t := range u.Tags {
+				if strings.HasPrefix(t, prop+".") && !seen[t] {
+					seen[t] = true
+					passes = append(passes, t)
+				}
+			}
+		}
+		sort.Strings(passes[1:])
 	}
-	wg.Wait()
-	for i, u := range units {
-		res := results[i]
-		for _, e := range res.Errors {
-			broken = append(broken, e)
-		}
-		n := 0
-		for _, ob := range res.Obligations {
-			if len(ob.Tags) == 0 || hasTag(ob.Tags, prop) {
-				ob.Name = prop + "/" + ob.Name
-				obs = append(obs, ob)
-				n++
+	_ = results
+	_ = mu
+	for _, u := range units {
+		var ui unitInfo
+		for pi, pass := range passes {
+			if pi > 0 && !u.Tags[pass] {
+				continue
+			}
+			activeProp = pass
+			res := VerifyUnit(prog, cs, u)
+			for _, e := range res.Errors {
+				broken = append(broken, e)
+			}
+			n := 0
+			for _, ob := range res.Obligations {
+				if pi == 0 {
+					if len(ob.Tags) == 0 || hasTag(ob.Tags, prop) {
+						ob.Name = prop + "/" + ob.Name
+						obs = append(obs, ob)
+						n++
+					}
+				} else if len(ob.Tags) > 0 && hasTag(ob.Tags, pass) {
+					ob.Name = prop + "/" + ob.Name
+					obs = append(obs, ob)
+					n++
+				}
+			}
+			if pi == 0 {
+				ui = unitInfo{ID: u.PkgDir + ":" + u.ID(), Range: res.SrcRange, Stmts: res.Stmts}
+			}
+			ui.Obs += n
+			if res.Exec != nil {
+				for a := range res.Exec.abstracted {
+					if !abstractedAll[u.ID()+": "+a] {
+						ui.Abstracted = append(ui.Abstracted, a)
+					}
+					abstractedAll[u.ID()+": "+a] = true
+				}
+				for a := range res.Exec.axioms {
+					axioms[a] = true
+				}
+				for a := range res.Exec.trustedUsed {
+					trusted[a] = true
+				}
 			}
 		}
-		ui := unitInfo{ID: u.PkgDir + ":" + u.ID(), Range: res.SrcRange, Stmts: res.Stmts, Obs: n}
-		if res.Exec != nil {
-			for a := range res.Exec.abstracted {
-				ui.Abstracted = append(ui.Abstracted, a)
-				abstractedAll[u.ID()+": "+a] = true
-			}
-			sort.Strings(ui.Abstracted)
-			for a := range res.Exec.axioms {
-				axioms[a] = true
-			}
-			for a := range res.Exec.trustedUsed {
-				trusted[a] = true
-			}
-		}
+		sort.Strings(ui.Abstracted)
 		if u.Trusted {
 			trusted[u.ID()] = true
 		}
 		uinfos = append(uinfos, ui)
 	}
+	activeProp = ""
 	if len(broken) > 0 {
 		for _, b := range broken {
 			fmt.Fprintln(os.Stderr, "broken check:", b)
